@@ -17,6 +17,7 @@ import random
 import re
 import struct
 import tempfile
+import warnings
 
 from rig.machine_control import boot as rig_boot
 from rig.machine_control import machine_controller, scp_connection
@@ -151,6 +152,27 @@ def sv_catalogue():
     return [(n, w) for n, w in out if seen[n] == 1 and n not in BOOT_MANAGED]
 
 
+def render_struct(defaults):
+    """The text of a caller's own struct file: the bundled sark.struct in which the default column of the named
+    `sv` variables is rewritten (odd values in hexadecimal, even ones in decimal - the format documents both);
+    with no names the text is the bundled file byte for byte."""
+    with open(os.path.join(RIG_ROOT, "rig", "boot", "sark.struct"), "rb") as f:
+        lines = f.read().split(b"\n")
+    cur, out = None, []
+    for line in lines:
+        t = line.split(b"#")[0].split()
+        if len(t) == 3 and t[0] == b"name":
+            cur = t[2]
+        elif len(t) == 5 and cur == b"sv":
+            name = re.sub(br"\[\d+\]$", b"", t[0]).decode("ascii")
+            if name in defaults:
+                m = re.match(br"^(\s*\S+\s+\S+\s+\S+\s+\S+\s+)(\S+)(.*)$", line, re.S)
+                v = defaults[name]
+                line = m.group(1) + (b"0x%x" % v if v % 2 else b"%d" % v) + m.group(3)
+        out.append(line)
+    return b"\n".join(out)
+
+
 # ---------------------------------------------------------------------------------- one history, one process
 def _run_history(h):
     """Runs in a freshly forked child: perform the boots of history h, return the trace."""
@@ -164,7 +186,9 @@ def _run_history(h):
     if hasattr(machine_controller, "socket"):
         machine_controller.socket = FakeSocketModule(rec, "mc")
     caller_dicts = [dict(d) for d in h["dicts"]]          # the caller's own dictionaries, made once
+    written = [dict(d) for d in h["dicts"]]               # what the caller wrote into them so far (the record)
     paths = []
+    struct_paths, held, mcs = [], [], {}
     tmpdir = tempfile.mkdtemp(prefix="rigverif-c20-img-")
     for k, img in enumerate(h["images"]):
         p = os.path.join(tmpdir, "image%d.boot" % k)
@@ -176,13 +200,41 @@ def _run_history(h):
     paths.append(one_path)
     with open(one_path, "wb") as f:
         f.write(b"")
+    # the caller's own struct files: the bundled one with other defaults for some system variables
+    for k, spec in enumerate(h.get("structs", [])):
+        p = os.path.join(tmpdir, "sark%d.struct" % k)
+        with open(p, "wb") as f:
+            f.write(render_struct(spec))
+        struct_paths.append(p)
+    one_struct = os.path.join(tmpdir, "current.struct")
+    struct_paths.append(one_struct)
+    with open(one_struct, "wb") as f:
+        f.write(b"")
     try:
         for b in h["boots"]:
-            intended = dict(h["dicts"][b["dict"]]) if b["dict"] is not None else {}
+            if b["dict"] is not None and b.get("edit"):
+                # the caller changes its own dictionary in place between two boots (None: removes the name)
+                for n, v in sorted(b["edit"].items()):
+                    for d in (caller_dicts[b["dict"]], written[b["dict"]]):
+                        if v is None:
+                            d.pop(n, None)
+                        else:
+                            d[n] = v
+            intended = dict(written[b["dict"]]) if b["dict"] is not None else {}
             intended.update(b["kw"])
             kwargs = dict(b["kw"])
+            kwargs.update(b.get("extra") or {})           # explicit non-option arguments (delays, width/height)
             if b["dict"] is not None:
                 kwargs["sv_overrides"] = caller_dicts[b["dict"]]
+            svdef = {}
+            if b.get("struct") is not None:
+                svdef = h["structs"][b["struct"]]
+                kwargs["sark_struct"] = struct_paths[b["struct"]]
+                if h.get("one_struct_path"):
+                    # the caller keeps ONE struct file name and regenerates the file before each boot
+                    kwargs["sark_struct"] = one_struct
+                    with open(one_struct, "wb") as f:
+                        f.write(render_struct(svdef))
             if b["image"] is not None:
                 kwargs["scamp_binary"] = paths[b["image"]]
                 image = bytes(h["images"][b["image"]])
@@ -204,9 +256,15 @@ def _run_history(h):
                         kwargs["boot_port"] = b["port"]
                     structs = rig_boot.boot(b["host"], **kwargs)
                 else:
-                    mc = (MachineController(b["host"]) if b["port"] is None else
-                          MachineController(b["host"], boot_port=b["port"]))
-                    mc.boot(only_if_needed=(b["via"] == "mc_if_needed"), check_booted=False, **kwargs)
+                    mc = mcs.get(b.get("mc_obj"))         # one controller object may boot more than once
+                    if mc is None:
+                        mc = (MachineController(b["host"]) if b["port"] is None else
+                              MachineController(b["host"], boot_port=b["port"]))
+                        if b.get("mc_obj") is not None:
+                            mcs[b["mc_obj"]] = mc
+                    with warnings.catch_warnings():
+                        warnings.simplefilter("ignore")   # width / height are documented as deprecated and ignored
+                        mc.boot(only_if_needed=(b["via"] == "mc_if_needed"), check_booted=False, **kwargs)
                     structs = mc.structs
             except Exception as ex:      # judged by the spec (clause BootCompletes)
                 result = ["raise", type(ex).__name__]
@@ -220,6 +278,7 @@ def _run_history(h):
             words_mismatch = sum(1 for s in mine if len(s[1]) > 18 and s[1][5] == 3 and
                                  (int.from_bytes(s[1][6:10], "big") >> 8) + 1 != (len(s[1]) - 18) // 4)
             after = dict(caller_dicts[b["dict"]]) if b["dict"] is not None else {}
+            held.append(structs)          # the caller keeps what each boot returned (projected again at the end)
             evs.append(["boot", dict(
                 via=b["via"], host=b["host"], port=port,
                 opts=[[n, le4(v)] for n, v in sorted(intended.items())],
@@ -229,13 +288,26 @@ def _run_history(h):
                 result=result,
                 fault=fault_hit,          # 1: one send() of this boot was made to fail by the environment
                 sv=sv,
+                # the struct file of this call: the bundled one except for these defaults of `sv` variables
+                svdef=[[n, v] for n, v in sorted(svdef.items())],
                 info=dict(dict=-1 if b["dict"] is None else b["dict"],
-                          caller_dict_changed=int(b["dict"] is not None and after != h["dicts"][b["dict"]]),
+                          struct=-1 if b.get("struct") is None else b["struct"],
+                          extra=sorted((b.get("extra") or {}).keys()),
+                          mc_obj=-1 if b.get("mc_obj") is None else b["mc_obj"],
+                          edited=int(bool(b.get("edit"))),
+                          caller_dict_changed=int(b["dict"] is not None and after != written[b["dict"]]),
                           announced_words_differ=words_mismatch,
                           scp_datagrams=sum(1 for s in rec.sent[first:] if s[0] != "boot")))])
-        evs.append(["end", len(h["boots"])])
+        # what the struct definitions returned by each boot say NOW, after all the later boots of the process
+        again = []
+        for structs in held:
+            try:
+                again.append(project_sv(structs))
+            except Exception:
+                again.append([])
+        evs.append(["end", len(h["boots"]), again])
     finally:
-        for p in paths:
+        for p in paths + struct_paths:
             os.remove(p)
         os.rmdir(tmpdir)
     return dict(label=h["label"], ev=evs)
@@ -347,6 +419,115 @@ def default_image_histories():
                         mk("boot", {}, 2)])]
 
 
+# ------------------------------------------------------------- further families (struct files, edits, re-use)
+def _own_kw(rng, cat, taken):
+    kw = random_options(rng, cat) if rng.random() < 0.7 else {}
+    return {n: v for n, v in kw.items() if n not in BOOT_PARAMETERS and n not in taken}
+
+
+def struct_defaults(rng, cat):
+    """other defaults for 1-4 system variables of a caller's own struct file (they fit the field and 31 bits)"""
+    width = dict(cat)
+    names = [n for n, _ in rng.sample(cat, rng.randint(1, 3))]
+    if rng.random() < 0.6:
+        names.append(rng.choice(["led0", "hw_ver", "cpu_clk", "led1", "p2p_dims"]))
+    out = {}
+    for name in names:
+        top = min(256 ** width[name] - 1, 2 ** 31 - 1)
+        out[name] = rng.choice([0, 1, top, rng.randint(0, top), rng.randint(2, 255)])
+    return out
+
+
+def random_extra(rng, via):
+    """explicit arguments that are not options: the two delays, and the controller's ignored width / height"""
+    out = {}
+    if rng.random() < 0.6:
+        out["boot_delay"] = rng.choice([0.0, 0.01, 0.2])
+    if rng.random() < 0.4:
+        out["post_boot_delay"] = rng.choice([0.0, 1.0, 5.0])
+    if via != "boot" and rng.random() < 0.6:
+        out["width"], out["height"] = rng.choice([(2, 2), (8, 8), (12, 24), (48, 24)])
+    return out
+
+
+def struct_history(rng, cat, idx, bundled_image):
+    """boots that name the caller's own struct file(s), mixed with boots that use the bundled one"""
+    ns = rng.randint(1, 2)
+    structs = [struct_defaults(rng, cat) for _ in range(ns)]
+    if rng.random() < 0.3 and not bundled_image:
+        structs[0] = {}                       # a byte-identical copy of the bundled file under another name
+    images = [] if bundled_image else [make_image(rng, rng.choice([512, 1024, 1028, 2052]))]
+    nd = rng.randint(0, 1)
+    dicts = [random_options(rng, cat) for _ in range(nd)]
+    boots = []
+    for j in range(2 if bundled_image else rng.randint(2, 4)):
+        d = 0 if nd and rng.random() < 0.4 else None
+        kw = _own_kw(rng, cat, dicts[d] if d is not None else ())
+        st = rng.choice([None] + list(range(ns)) * 2)
+        if st is not None and structs[st] and rng.random() < 0.4:
+            # an option for a variable whose default this struct file changes
+            n = rng.choice(sorted(structs[st]))
+            if n not in BOOT_PARAMETERS and (d is None or n not in dicts[d]):
+                kw[n] = rng.randint(0, 255)
+        boots.append(dict(via=rng.choice(["boot", "boot", "mc"]), dict=d, kw=kw, host="10.1.%d.%d" % (idx % 250, j + 1),
+                          port=None, image=None if bundled_image else 0, struct=st))
+    k = rng.randrange(len(boots))
+    if all(b["struct"] is None for b in boots):
+        boots[k]["struct"] = rng.randrange(ns)
+    return dict(label="struct%d" % idx, dicts=dicts, images=images, boots=boots, structs=structs,
+                one_struct_path=rng.random() < 0.5)
+
+
+def edit_history(rng, cat, idx):
+    """one caller-owned sv_overrides dictionary given to every boot and changed in place between them"""
+    d0 = {}
+    while not d0:
+        d0 = random_options(rng, cat)
+    now = dict(d0)
+    images = [make_image(rng, rng.choice([512, 1024, 1540]))]
+    boots = []
+    for j in range(rng.randint(2, 4)):
+        edit = {}
+        if j:
+            for _ in range(rng.randint(1, 2)):
+                r = rng.random()
+                if r < 0.4 and now:
+                    edit[rng.choice(sorted(now))] = None
+                elif r < 0.7 and now:
+                    n = rng.choice(sorted(now))
+                    edit[n] = (now[n] + rng.randint(1, 200)) % 256
+                else:
+                    n, w = rng.choice(cat)
+                    edit[n] = rng.randint(0, 256 ** w - 1)
+            for n, v in edit.items():
+                if v is None:
+                    now.pop(n, None)
+                else:
+                    now[n] = v
+        kw = {} if rng.random() < 0.6 else _own_kw(rng, cat, set(now) | set(d0) | set(edit))
+        boots.append(dict(via=rng.choice(["boot", "boot", "mc"]), dict=0, kw=kw, edit=edit,
+                          host="10.2.%d.%d" % (idx % 250, j + 1), port=None, image=0))
+    return dict(label="edit%d" % idx, dicts=[d0], images=images, boots=boots)
+
+
+def reuse_history(rng, cat, idx):
+    """one board booted again: by the same MachineController object, or by boot() with the same host name; some
+    boots also pass the delays (and the controller's deprecated width / height) explicitly"""
+    images = [make_image(rng, rng.choice([512, 1024, 1028]))]
+    same_mc = rng.random() < 0.6
+    port = rng.choice([None, None, 12345])
+    boots = []
+    for j in range(rng.randint(2, 3)):
+        via = rng.choice(["mc", "mc", "mc_if_needed"]) if same_mc else "boot"
+        kw = {}
+        if j == 0 or rng.random() < 0.4:
+            while not kw:
+                kw = _own_kw(rng, cat, ())
+        boots.append(dict(via=via, dict=None, kw=kw, host="10.3.%d.1" % (idx % 250), port=port, image=0,
+                          mc_obj=0 if same_mc else None, extra=random_extra(rng, via)))
+    return dict(label="reuse%d" % idx, dicts=[], images=images, boots=boots)
+
+
 # ---------------------------------------------------------------------------------- the check
 def key_of(tr, i, clauses):
     ev = tr["ev"][i - 1]
@@ -384,10 +565,17 @@ def run(chk):
     histories += [random_history(rng, cat, i, big=i < nbig) for i in range(nrand)]
     histories += default_image_histories()
     histories += with_faults(rng, histories, 0.25)
+    # further families (their own stream of random numbers: the histories above do not depend on them)
+    rng2 = random.Random(chk.seed * 7919 + 20)
+    nstruct = chk.pick(12, 200)
+    histories += [struct_history(rng2, cat, i, bundled_image=i < chk.pick(3, 10)) for i in range(nstruct)]
+    histories += [edit_history(rng2, cat, i) for i in range(chk.pick(8, 100))]
+    histories += [reuse_history(rng2, cat, i) for i in range(chk.pick(10, 100))]
     traces = run_histories(histories)
     for h, t in zip(histories, traces):
         boots = [e[1] for e in t["ev"] if e[0] == "boot"]
-        chk.note_case([(b["via"], b["opts"], len(b["image"]), b["info"]["dict"]) for b in boots],
+        chk.note_case([(b["via"], b["opts"], len(b["image"]), b["info"]["dict"], b["svdef"], b["info"]["extra"],
+                        b["info"]["mc_obj"], b["info"]["edited"]) for b in boots],
                       nontrivial=len(boots) >= 2 and any(b["opts"] for b in boots))
         for b in boots:
             chk.count("boots")
@@ -395,11 +583,25 @@ def run(chk):
             chk.count("datagrams recorded", len(b["dg"]))
             if b["result"][0] != "return":
                 chk.count("boots that raised " + b["result"][1])
+            if b["info"]["struct"] >= 0:
+                chk.count("boots naming the caller's own struct file")
+                if b["svdef"]:
+                    chk.count("boots whose struct file changes defaults")
+            if b["info"]["edited"]:
+                chk.count("boots after the caller edited its sv_overrides dictionary in place")
+            if b["info"]["extra"]:
+                chk.count("boots with explicit delays / width / height")
             if b["info"]["caller_dict_changed"]:
                 chk.count("informational: caller's sv_overrides dictionary modified by the call")
             if b["info"]["announced_words_differ"]:
                 chk.count("informational: block datagrams whose announced word count differs from the words carried",
                           b["info"]["announced_words_differ"])
+        seen = set()
+        for b in boots:
+            if b["info"]["mc_obj"] >= 0:
+                if b["info"]["mc_obj"] in seen:
+                    chk.count("boots by a MachineController object that had booted before")
+                seen.add(b["info"]["mc_obj"])
     sizes = sorted(set(len(e[1]["image"]) for t in traces for e in t["ev"] if e[0] == "boot"))
     chk.extra["image_sizes"] = sizes if len(sizes) <= 40 else sizes[:20] + ["..."] + sizes[-19:]
     chk.extra["option_names_used"] = len(set(o[0] for t in traces for e in t["ev"] if e[0] == "boot"
@@ -410,7 +612,15 @@ def run(chk):
                 "overrides of any system variable of the bundled sv struct with edge and random values, through "
                 "keyword arguments and/or a caller-owned sv_overrides dictionary that is reused by later boots, via "
                 "boot() and MachineController.boot(), distinct hosts, default and explicit ports, random image "
-                "contents of 512 bytes .. just below 32 KiB in whole words), then the bundled scamp.boot; "
+                "contents of 512 bytes .. just below 32 KiB in whole words), then the bundled scamp.boot; then "
+                "histories in which boots name the caller's own struct file (sark_struct: the bundled file byte for "
+                "byte, or with other defaults for 1-4 sv variables; two such files in one history; one file name "
+                "regenerated between boots; mixed with boots that use the bundled file and with options for the very "
+                "variables whose default changed; also with the bundled image), histories in which the caller edits "
+                "its sv_overrides dictionary in place between boots (adds, changes, removes names), histories in "
+                "which one board is booted again (the same MachineController object, or boot() with the same host) "
+                "with the delays and the controller's deprecated width / height passed explicitly; at the end of "
+                "every history the struct definitions each boot returned are projected once more; "
                 "non-trivial = at least two boots and at least one option; distinct = distinct (via, options, image "
                 "size, dictionary use) sequences")
     chk.assumptions += [
@@ -420,7 +630,10 @@ def run(chk):
         "comparison of configuration areas; option values fit the field; the twice-defined __PAD4 is never an option",
         "keyword options and the sv_overrides dictionary of one call never name the same variable; a system "
         "variable named like a parameter of boot() (boot_delay) is only ever given through the dictionary",
-        "the struct file is the bundled sark.struct, transcribed into Boot.tla (SvBundled)",
+        "the struct file is the bundled sark.struct, transcribed into Boot.tla (SvBundled), or that file with other "
+        "default values (below 2^31, fitting the field) for some sv variables - never another layout",
+        "boot_delay / post_boot_delay given as explicit arguments are delays, not options; width / height of "
+        "MachineController.boot are documented as ignored: none of them may show in the configuration area",
         "the word count a block datagram announces (always 256 in rig, also for a ragged last block) is not part of "
         "the property; it is only counted",
     ]
